@@ -215,14 +215,16 @@ def run(prop, tier, seed):
             # C13 is also judged on the TCP-MD5 fault scenarios of C12 (they contain operator stops and starts)
             nd, nscen = S.run_scenarios({'C18': 'C16', 'C13': 'C12'}.get(prop, prop), tier, seed, workdir)
             if prop == 'C18':           # the counters are also judged on every hostile-input run of the C10 driver
-                nd2, nscen2 = S.run_scenarios('C10', tier, seed, workdir)
-                with open(nd, 'a') as fa, open(nd2) as fb:
-                    for line in fb:
-                        d = json.loads(line)
-                        d['tid'] += 10000000
-                        fa.write(json.dumps(d, separators=(',', ':')) + '\n')
-                os.remove(nd2)
-                nscen += nscen2
+                # ... and on the fault scenarios of C12 (socket option and handler callback failures)
+                for j, other in enumerate(('C10', 'C12S')):
+                    nd2, nscen2 = S.run_scenarios(other, tier, seed, workdir)
+                    with open(nd, 'a') as fa, open(nd2) as fb:
+                        for line in fb:
+                            d = json.loads(line)
+                            d['tid'] += 10000000 * (j + 1)
+                            fa.write(json.dumps(d, separators=(',', ':')) + '\n')
+                    os.remove(nd2)
+                    nscen += nscen2
             rej, vst = S.validate(nd, PROPSETS[prop])
             job = {'wcfg': {'scenario': prop}, 'cfgline': {}}
             nrej = S.judge(prop, rej, nd, job, v)
